@@ -34,7 +34,7 @@ def _factory_name(kind, ident):
         "raise": "%s.raising_%d" % (FACTORY_MODULE, ident),        # called, raises
         "noattr": "%s.missing_%d" % (FACTORY_MODULE, ident),       # no such attribute
         "nomod": "c19_no_such_module_%d.thing" % ident,            # no such module
-        "nonstr": None,                                            # not a name at all (empty YAML value)
+        "nonstr": None,                # not a name at all (an empty YAML value)
     }[kind]
 
 
@@ -56,7 +56,8 @@ KIND_OF_NAME[FACTORY_MODULE] = ("mod", None)
 
 
 # ---------------------------------------------------------------------------------------
-# tree shapes:  ("s",) | ("l", children) | ("m", index of the __args__ child or None, children)
+# tree shapes:  ("s",) | ("l", children)
+#               | ("m", index of the __args__ child or None, children)
 
 
 @functools.lru_cache(None)
@@ -225,7 +226,8 @@ def tokenise(where):
 
 
 def show(path):
-    return "".join(".%s" % w if step == "key" else "[%d]" % w for step, w in path) or "<root>"
+    return "".join(
+        ".%s" % w if step == "key" else "[%d]" % w for step, w in path) or "<root>"
 
 
 # ---------------------------------------------------------------------------------------
@@ -258,7 +260,8 @@ def judge(structure, result, error, log, error_type):
     for index, (kind, ident, args, kwargs) in enumerate(log):
         element = callable_elements.get((kind, ident))
         if element is None or kind in ("noattr", "nomod"):
-            return ("log:unknown-call", "call of %s %r, which no mapping names" % (kind, ident))
+            return ("log:unknown-call",
+                    "call of %s %r, which no mapping names" % (kind, ident))
         path = element[0]
         if path in position:
             return ("log:factory-called-twice",
@@ -267,7 +270,8 @@ def judge(structure, result, error, log, error_type):
         for other_path, other_kind, _ in elements:
             relation = precedes(other_path, path)
             if relation and (other_path not in position or other_kind in FAILING_KINDS):
-                state = ("fails" if other_kind in FAILING_KINDS else "was not constructed yet")
+                state = ("fails" if other_kind in FAILING_KINDS
+                         else "was not constructed yet")
                 if relation == "child":
                     return ("order:parent-constructed-before-child",
                             "%s was constructed although %s below it %s"
@@ -307,7 +311,8 @@ def judge(structure, result, error, log, error_type):
     where = getattr(error, "where", None)
     tokens = tokenise(where)
     if tokens is None:
-        return ("where:not-a-path", "ConfigurationError.where is %r; failing factories at %s"
+        return ("where:not-a-path",
+                "ConfigurationError.where is %r; failing factories at %s"
                 % (where, [show(f[0]) for f in failing]))
     culprit = [f for f in failing if f[0] == tokens]
     if not culprit:
